@@ -84,6 +84,11 @@ CHECKS["C07"] = dict(
    text="Exploration: protocol shapes (1-8 steps, any stream pattern, plus hostile sizes 127-130 / 255-257 steps walked to the far end) x four generated call sequences - C++ writer (write / batch write / end / close), C++ reader (read / batch read with capacity / close, scripted source), Python writer (write / write iterable / close), Python reader (read / iterate n / close) - mostly along the legal path with arbitrary deviations, each ending at its first rejected call. The generated abstract base classes (which own the step state) are driven through stub implementations, C++ compiled, Python executed. Every call the reference automaton accepts must succeed with exactly the scripted data and end-of-stream indication; the first call it rejects must raise. Corners the documents leave open are not judged.",
    note="trusted: harness/ref/steps.go (four ~50-line automata) and the stub generators; payloads are int32 (the state machine is payload-independent); MATLAB classes are not executed",
    ref="DESIGN.md section 3 (C07)")
+CHECKS["C20"] = dict(
+   technique="schedule-based property testing of `yardl generate --watch` with an injected delay point (build tag verif) that forces chosen regenerations to outlast later ones; oracle = convergence to the one-shot output",
+   text="Exploration: generated save schedules (valid changes, YAML syntax errors, rule violations, file deletion/creation, touches; gaps 0-120 ms; last state valid) are replayed against a running watcher whose regenerations are stretched by 0/60/350 ms at a hook inside generateImpl, which forces the interleaving the property names (a slow regeneration of older contents overtaken by a fast one). After quiescence the watcher must still be alive and the output tree must equal that of a one-shot generate of the final contents. Failures are re-run three times from their schedule and only reported if they reproduce.",
+   note="trusted: the hook (tooling/internal/cmd/verifhook_on.go, no-op without the tag) only sleeps and logs; real-time effects outside the hook remain, so absence of races is not shown",
+   ref="DESIGN.md section 3 (C20)")
 NOT_YET = {"C05": "not built yet (evolution data conversions; planned)", "C19": "not built yet (computed fields; planned)", "C20": "not built yet (watch mode; planned)"}
 
 props = [json.loads(l) for l in open("properties.jsonl")]
@@ -114,7 +119,7 @@ m = {
    "guard": "verif",
    "enable": "go build -tags verif ./cmd/yardl (done by ./verif before every check)",
    "baseline_off_cmd": "cd /repo/tooling && GOFLAGS=-mod=mod GOPROXY=off go test -json -vet=off -count=1 -timeout 25m ./...",
-   "source_commits": [],
+   "source_commits": ["048e554"],
    "add_only": True,
  },
  "engines": [{"name": "harness", "path": "/verif/harness", "serves_properties": sorted(CHECKS), "kind_free_text": "Go module: rapid v1.3.0 property-based tests driving the yardl CLI / public packages / generated code against reference models"}],
